@@ -73,6 +73,18 @@ pub fn eval(p: &Parameters, q: &Joints) -> Result<(Vec<(String, String)>, usize)
             format!("inverse(FK(q)) with {} answers does not contain q", sols.len()),
         ));
     }
+    // the same pose written with the other unit quaternion (q and -q are one rotation): same answer set size, q among them
+    {
+        let mut neg = to_na(&pose);
+        neg.rotation = nalgebra::UnitQuaternion::new_unchecked(-neg.rotation.into_inner());
+        let sols_neg = robot.inverse(&neg);
+        if sols_neg.len() != sols.len() || !contains(&sols_neg, q, MATCH_TOL) {
+            fails.push((
+                "C02/depends-on-quaternion-sign".to_string(),
+                format!("{} answers for the pose, {} for the same pose with the quaternion negated (q present: {})", sols.len(), sols_neg.len(), contains(&sols_neg, q, MATCH_TOL)),
+            ));
+        }
+    }
     if sols.len() != 2 * n_arm {
         fails.push((
             format!("C02/branch-count/expected{}", 2 * n_arm),
@@ -193,7 +205,7 @@ pub fn run(ctx: &Ctx) -> Report {
     rep.rule = "robots R (dof 6) x theta lattice; points whose pose has any arm branch within the oracle margins \
                 (|sin t5|<=1e-3, elbow/reach boundary 1e-6 in cos, shoulder 1 mm) are skipped_precondition; oracle: \
                 q in inverse(FK_ref(q)), |answers| = 2 x reachable arm branches (independent arm IK), twins present, \
-                no duplicates, same size for the pose of every answer; threshold sweep: robots with a1 / a2 / b / c4 = +- each ladder magnitude x 4 postures; signature = number of answers".into();
+                no duplicates, same size for the pose of every answer and for the same pose with the quaternion negated; threshold sweep: robots with a1 / a2 / b / c4 = +- each ladder magnitude x 4 postures; signature = number of answers".into();
     rep.set("axes", json!({"robots": robots.len(), "theta_axis_sizes": ax.iter().map(|a| a.len()).collect::<Vec<_>>() }));
     rep.set("tolerances", json!({"match_mod_2pi": MATCH_TOL, "duplicate": DUP_TOL, "sin_margin": SIN_MARGIN}));
     rep.assumptions.push("lattice-relative: values outside the printed axes are not covered".into());
